@@ -192,6 +192,7 @@ package models
 //@   requires ErrNotASeed != nil
 //@   modifies Item::status, Item::children, elem::*Item
 //@   local lastRemoved *Item = nil
+//@   after String(url)#1: lastRemoved = nil
 //@   after RemoveChild(parent)#1: lastRemoved = ite(existing == node, nil, existing)
 //@   loop range invariant [map] forall(k, string, has(urls, k) ==> urls[k] != nil && urlKey(urls[k].url) == k)
 //@   loop range invariant [no-stale] lastRemoved == nil || forall(k, string, has(urls, k) ==> urls[k] != lastRemoved) // C11: de-duplication leaves exactly one node per URL (the record never points at a removed node)
